@@ -410,12 +410,15 @@ Section Validate.
     | SStartStop =>
         match v with
         | PList [a; b] => Ret (PDict [(PStr (zs "start"), a); (PStr (zs "stop"), b)])
-        | _ => Raise EOther
+        | PList _ => Raise EInvalid     (* not reachable: the form is only used after Length(2, 2) *)
+        | _ => Raise EType              (* x[0] on something that cannot be indexed *)
         end
     | SAllUnique =>
         match v with
         | PList l | PTuple l => if has_dup l then Raise EInvalid else Ret v
-        | _ => Raise EOther
+        | PStr cs => if has_dup (map (fun c => PStr [c]) cs) then Raise EInvalid else Ret v
+        | PDict _ => Ret v              (* iterating a dict yields its (distinct) keys *)
+        | _ => Raise EType              (* not iterable *)
         end
     | SKeysStr =>
         match v with
